@@ -68,7 +68,17 @@ def generate(rng, tier):
     while True:
         spec = F.gen_fa(rng, max_states=(5 if tier == "thorough" and rng.random() < 0.25 else 4), pool=rng.choice(["str", "str", "int"]))
         spec["symvals"] = F.PLAIN_SYMS[:len(spec["symvals"])]
-        yield {"fa": spec}
+        edit = []
+        n = len(spec["svals"])
+        if n and rng.random() < 0.3:
+            # the same object converted again after an edit through the public API (start / final marks, a transition)
+            for _ in range(rng.randint(1, 2)):
+                k = rng.choice(["start", "start", "unstart", "final", "unfinal", "trans"])
+                if k == "trans":
+                    edit.append([k, rng.randrange(n), rng.randrange(len(spec["symvals"])), rng.randrange(n)])
+                else:
+                    edit.append([k, rng.randrange(n)])
+        yield {"fa": spec, "edit": edit}
 
 
 
@@ -153,4 +163,40 @@ def run_case(case, drv):
         if g != ("ok", m):
             res.violation("to_regex.accepts", "accepts differs from the automaton", detail={"word": w, "impl": g})
             break
+    # ---- the same object, edited through the public API, converted again --------------------------
+    if case.get("edit") and not res.findings:
+        sv, yv = spec["svals"], spec["symvals"]
+
+        def apply_edit():
+            for e in case["edit"]:
+                try:
+                    if e[0] == "start":
+                        fa.add_start_state(sv[e[1]])
+                    elif e[0] == "unstart":
+                        fa.remove_start_state(sv[e[1]])
+                    elif e[0] == "final":
+                        fa.add_final_state(sv[e[1]])
+                    elif e[0] == "unfinal":
+                        fa.remove_final_state(sv[e[1]])
+                    else:
+                        fa.add_transition(sv[e[1]], yv[e[2]], sv[e[3]])
+                except Exception:  # pylint: disable=broad-except
+                    pass           # e.g. a second transition on a DFA entry: refused, nothing changes
+        outcome(apply_edit)
+        A2 = F.extract(fa, scodes, ycodes)
+        if len(A2["delta"]) <= 9:
+            got2 = outcome(fa.to_regex, limit=8.0)
+            res.evals += 1
+            if got2[0] == "ok":
+                st, tree2 = outcome(lambda: X.tree_of(got2[1]))
+                if st == "ok":
+                    eq2 = drv.call("rx.faEquiv", tree=tree2, A=A2, symNames=[str(v) for v in ycodes.values])
+                    res.tag("converted_again_after_edit")
+                    if not eq2["equiv"]:
+                        res.violation("to_regex", "after an edit of the automaton, to_regex() does not denote the "
+                                      "language of the edited automaton", detail={"word": eq2["word"], "edit": case["edit"],
+                                                                                 "regex": str(got2[1])})
+            elif got2[0] == "exc":
+                res.violation("to_regex", "raised %s after an edit" % got2[1], detail={"edit": case["edit"]},
+                              scope=(["multi_start"] if len(A2["starts"]) > 1 else []))
     return res
